@@ -466,7 +466,7 @@ func loadScenario(t *testing.T, name string) *scn.Scenario {
 }
 
 func TestRegSavedScenarios(t *testing.T) {
-	names := []string{"small-mixed.json", "via-twins.json", "echo-tracer.json", "overflow-never.json", "manual-triggers.json", "levels-and-tracers.json"}
+	names := []string{"small-mixed.json", "printf-tracer-pkglevels.json", "via-twins.json", "echo-tracer.json", "overflow-never.json", "manual-triggers.json", "levels-and-tracers.json"}
 	parallelTrials(t, len(names), 4, func(i int) *scn.Scenario { return loadScenario(t, names[i]) })
 }
 
@@ -582,4 +582,64 @@ func TestRegOraclePlainEchoOfTraceMainLine(t *testing.T) {
 	for _, merge := range []bool{false, true} {
 		mustPass(t, "no tracer", sc, ideal(sc, merge))
 	}
+}
+
+// Printf-style methods of a (nil or real) tracer: the origin of the line is the
+// caller of Warningf, not the log package. With package levels the nil-tracer
+// fallback must be filtered with the calling package's level, in both
+// directions, and the message must carry the caller's file. (Seeded change
+// C20-4: Warningf delegated to Warning; the extra frame made log/trace.go the origin.)
+func TestRegOraclePrintfStyleTracerOrigin(t *testing.T) {
+	sc := &scn.Scenario{
+		Sched: "never", Goroutines: 1,
+		Init: []scn.Op{{K: scn.OpLevel, Sev: 3}, {K: scn.OpPkg, Pkgs: map[string]int{"pkga": 5}}},
+		Phases: []scn.Phase{
+			// global INFO, pkga ERRO: Warningf from pkga (nil tracer) is below the level in force; Errorf is not
+			{G: [][]scn.Op{{{K: scn.OpTracer, Pkg: "a", Sevs: []int{4, 5}, Fm: 3}}}},
+			// global ERRO, pkga DEBU: Warningf from pkga is enabled only by the package level
+			{Pre: []scn.Op{{K: scn.OpLevel, Sev: 5}, {K: scn.OpPkg, Pkgs: map[string]int{"pkga": 2}}},
+				G: [][]scn.Op{{{K: scn.OpTracer, Pkg: "a", Sevs: []int{4}, Fm: 1}, {K: scn.OpTracer, Pkg: "b", Sevs: []int{4}, Fm: 1}}}},
+			// Trace everywhere: a real tracer collecting Printf-style lines
+			{Pre: []scn.Op{{K: scn.OpUnset}, {K: scn.OpLevel, Sev: 1}},
+				G: [][]scn.Op{{{K: scn.OpTracer, Pkg: "a", Sevs: []int{4, 4, 3}, Fm: 2}}}},
+		},
+	}
+	base := ideal(sc, false)
+	var got []string
+	for _, w := range base.Writes {
+		got = append(got, w.Text)
+	}
+	if strings.Join(got, " ") != "L0:0.1 L0:1.0 L0:3.2" {
+		t.Fatalf("reference simulation: %v", got)
+	}
+	rep := mustPass(t, "ideal", sc, base)
+	if rep.NilFLines != 4 || rep.NilFQuieter != 1 || rep.NilFLouder != 1 || rep.RealFLines != 1 {
+		t.Fatalf("accounting: %+v", rep)
+	}
+	wrong := "/repo/log/trace"
+	// below-level warning emitted (filtered with the global level), with either origin
+	for _, file := range []string{wrong, base.Writes[0].File} {
+		r := clone(base)
+		r.Writes = append([]scn.Write{{Text: "L0:0.0", Sev: 4, File: file, Line: 226}}, r.Writes...)
+		mustFail(t, "suppressed Warningf emitted ("+file+")", sc, fix(r), "")
+	}
+	// enabled warning lost
+	r := clone(base)
+	r.Writes = append(r.Writes[:1], r.Writes[2:]...)
+	mustFail(t, "enabled Warningf lost", sc, fix(r), "lines before it are missing")
+	// emitted, but attributed to the log package
+	r = clone(base)
+	r.Writes[1].File = wrong
+	mustFail(t, "wrong origin of a plain fallback line", sc, r, "")
+	// real tracer: the collected Warningf line attributed to the log package
+	r = clone(base)
+	if len(r.Writes[2].Trace) != 2 || !strings.Contains(r.Writes[2].Trace[1], "o/pkga/ops") {
+		t.Fatalf("set-up: %+v", r.Writes[2])
+	}
+	r.Writes[2].Trace[1] = strings.Replace(r.Writes[2].Trace[1], "o/pkga/ops", "/log/trace", 1)
+	mustFail(t, "wrong origin of a collected line", sc, r, "")
+	// pkgb has no entry: its Warningf is governed by the global level (ERRO) and must stay away
+	r = clone(base)
+	r.Writes = append(r.Writes[:2], append([]scn.Write{{Text: "L0:2.0", Sev: 4, File: strings.Replace(base.Writes[0].File, "pkga", "pkgb", 1), Line: 88}}, r.Writes[2:]...)...)
+	mustFail(t, "pkgb warning below the global level", sc, fix(r), "must not be emitted")
 }
